@@ -1,3 +1,246 @@
 (* C05 - Rule materialisation computes exactly the least model of the program.
-   (thin slice: theorems are added below as they are proved) *)
-Require Import KV.Datalog.LeastModel KV.Datalog.Strategies KV.Datalog.Classes.
+   This file contains only the property theorems; each is closed by `exact <lemma>` (or by a
+   computed witness) and followed by Print Assumptions.
+
+   Reading guide.  [derives nv P F f]  (LeastModel.v) is the inductive definition of "f is in the least
+   model of the rules P over the facts F" (nv gives the numeric value of a constant, for filters).
+   [naive_run], [semi_run], [par_run], [prov_bool_run] (Strategies.v, HashJoin.v) are the executable models
+   of the four strategies of the real Reasoner; a run returns Some (facts in the store afterwards, returned
+   new facts) or None when the explicit fuel is exhausted (excluded by C05_terminates).
+   [safe P] : every rule has at least one premise and its conclusion / filter / negated-atom variables
+   occur in a premise.  The naive, semi-naive and parallel models never read the negated atoms, and
+   [derives] does not either: for programs with negated atoms the theorems below therefore speak about
+   the program with the negated atoms erased, which is NOT the stratified model - see
+   C05_negation_ignored_refuted. *)
+Require Import KV.Datalog.Syntax KV.Datalog.LeastModel KV.Datalog.Stratified KV.Datalog.HashJoin KV.Datalog.NestedJoin KV.Datalog.Strategies KV.Datalog.Classes.
+Require Import KV.Datalog.BasicLemmas KV.Datalog.LeastModelProofs KV.Datalog.StratifiedProofs KV.Datalog.HashJoinProofs KV.Datalog.JoinSemantics.
+Require Import KV.Datalog.RoundProofs KV.Datalog.DriverProofs KV.Datalog.MainProofs KV.Datalog.ParallelProofs KV.Datalog.ProvProofs KV.Datalog.NegProofs.
+
+(* (0) The executable Spec used as oracle by the correspondence check is the inductive definition. *)
+Theorem C05_spec_executable :
+  forall nv fuel P F M,
+    safe P = true -> least_model nv fuel P F = Some M -> forall f, In f M <-> derives nv P F f.
+Proof. intros nv fuel P F M HS. apply least_model_correct. apply (safe_rr P HS). Qed.
+Print Assumptions C05_spec_executable.
+
+(* (1) The bucketed hash join (four buckets, early return from the both-bound bucket, synthetic join
+   variables for constants, predicate variable bound per row) returns exactly - same rows, same
+   order - the nested-loop extension of each row by each matching triple, on every homogeneous row list. *)
+Theorem C05_join_bucketed_eq_nested :
+  forall (a : atom) (triples : list fact) (rows : list row),
+    homogeneous rows -> hash_join a triples rows = nested_join a triples rows.
+Proof. exact join_bucketed_eq_nested. Qed.
+Print Assumptions C05_join_bucketed_eq_nested.
+
+(* ... and rule evaluation only ever passes homogeneous row lists to the join: starting from the single
+   empty row, after joining any premises against any fact lists the rows bind the same keys. *)
+Theorem C05_join_rows_homogeneous :
+  forall (steps : list (atom * list fact)),
+    homogeneous (fold_left (fun rows s => hash_join (fst s) (snd s) rows) steps [[]]).
+Proof.
+  intros steps.
+  assert (G : forall steps rows done, exactM rows done ->
+              exactM (fold_left (fun rows s => hash_join (fst s) (snd s) rows) steps rows) (done ++ steps)).
+  { induction steps0 as [|[a Fa] steps0 IH]; intros rows done H; cbn [fold_left fst snd].
+    - rewrite app_nil_r. exact H.
+    - replace (done ++ (a, Fa) :: steps0) with ((done ++ [(a, Fa)]) ++ steps0) by (rewrite <- app_assoc; reflexivity).
+      apply IH. apply exactM_step. exact H. }
+  apply (em_hom _ _ (G steps [[]] [] exactM_init)).
+Qed.
+Print Assumptions C05_join_rows_homogeneous.
+
+(* (2) Naive strategy: soundness and completeness. *)
+Theorem C05_naive :
+  forall nv P F fuel all new,
+    safe P = true -> naive_run nv fuel P F = Some (all, new) ->
+    (forall f, In f all <-> derives nv P F f) /\
+    (forall f, In f new <-> derives nv P F f /\ ~ In f F) /\ NoDup new.
+Proof. intros nv P F fuel all new HS. apply (naive_correct nv P F HS). Qed.
+Print Assumptions C05_naive.
+
+(* (3) Semi-naive strategy (delta window over the fact vector): soundness and completeness. *)
+Theorem C05_semi_naive :
+  forall nv P F fuel all new,
+    safe P = true -> semi_run nv fuel P F = Some (all, new) ->
+    (forall f, In f all <-> derives nv P F f) /\
+    (forall f, In f new <-> derives nv P F f /\ ~ In f F) /\ NoDup new.
+Proof. intros nv P F fuel all new HS. apply (semi_correct nv P F HS). Qed.
+Print Assumptions C05_semi_naive.
+
+(* Provenance strategy with Boolean tags on a program without negated atoms. *)
+Theorem C05_provenance_bool :
+  forall nv P F fuel all new,
+    safe P = true -> positive P = true -> prov_bool_run nv fuel P F = Some (all, new) ->
+    (forall f, In f all <-> derives nv P F f) /\
+    (forall f, In f new <-> derives nv P F f /\ ~ In f F) /\ NoDup new.
+Proof. intros nv P F fuel all new HS HP. rewrite (prov_bool_positive nv fuel P F HP). apply (semi_correct nv P F HS). Qed.
+Print Assumptions C05_provenance_bool.
+
+(* (4) A second run - from any listing M of the stored facts, under either strategy - derives nothing. *)
+Theorem C05_idempotent :
+  forall nv P F M fuel,
+    safe P = true -> (forall f, In f M <-> derives nv P F f) ->
+    naive_run nv (S fuel) P M = Some (M, []) /\ semi_run nv (S fuel) P M = Some (M, []).
+Proof. intros nv P F M fuel HS HM. split; [apply (naive_idempotent nv P F M fuel HS HM) | apply (semi_idempotent nv P F M fuel HS HM)]. Qed.
+Print Assumptions C05_idempotent.
+
+(* The stored set does not depend on the order (or multiplicity) of rules and facts, nor on the strategy. *)
+Theorem C05_order :
+  forall nv P P' F F' fuel fuel' all new all' new',
+    safe P = true -> (forall r, In r P <-> In r P') -> (forall g, In g F <-> In g F') ->
+    (naive_run nv fuel P F = Some (all, new) \/ semi_run nv fuel P F = Some (all, new)) ->
+    (naive_run nv fuel' P' F' = Some (all', new') \/ semi_run nv fuel' P' F' = Some (all', new')) ->
+    forall f, In f all <-> In f all'.
+Proof.
+  intros nv P P' F F' fuel fuel' all new all' new' HS HP HF H1 H2 f.
+  pose proof (safe_set_eq P P' HP HS) as HS'.
+  assert (A : forall f, In f all <-> derives nv P F f) by (destruct H1 as [H1 | H1]; [apply (naive_correct nv P F HS _ _ _ H1) | apply (semi_correct nv P F HS _ _ _ H1)]).
+  assert (B : forall f, In f all' <-> derives nv P' F' f) by (destruct H2 as [H2 | H2]; [apply (naive_correct nv P' F' HS' _ _ _ H2) | apply (semi_correct nv P' F' HS' _ _ _ H2)]).
+  rewrite A, B. apply derives_set_eq; assumption.
+Qed.
+Print Assumptions C05_order.
+
+(* (5) Termination: with more fuel than |constants of P and F|^3 the driver returns. *)
+Theorem C05_terminates :
+  forall nv P F fuel,
+    safe P = true -> (length (consts P F) * (length (consts P F) * length (consts P F)) < fuel)%nat ->
+    naive_run nv fuel P F <> None /\ semi_run nv fuel P F <> None.
+Proof.
+  intros nv P F fuel HS Hf. rewrite <- cube_length in Hf.
+  split; [apply (naive_terminates nv P F HS fuel Hf) | apply (semi_terminates nv P F HS fuel Hf)].
+Qed.
+Print Assumptions C05_terminates.
+
+(* (6) Parallel strategy, as written: correct outside the class known_C05_par. *)
+Theorem C05_parallel :
+  forall nv P F fuel all new,
+    safe P = true -> known_C05_par P = false -> par_run fuel P F = Some (all, new) ->
+    (forall f, In f all <-> derives nv P F f) /\
+    (forall f, In f new <-> derives nv P F f /\ ~ In f F) /\ NoDup new.
+Proof. intros nv P F fuel all new HS HK. apply (par_correct nv P F (known_par_false P HS HK)). Qed.
+Print Assumptions C05_parallel.
+
+(* ... and inside the class it loses derivations.  Witness (corpus/C05/par-chain3-varpred.json, reproduced on the
+   real code): facts a-p->b-p->c-p->d, rule R1 (X0 p X1)(X1 p X2)(X2 p X3) -> (X0 q X3) and
+   rule R2 (X0 X5 X1) -> (X1 X5 X0).  The least model has 11 derived facts, the parallel strategy none. *)
+Definition wit_P : list rule :=
+  [Rule [(V 0, C 4, V 1); (V 1, C 4, V 2); (V 2, C 4, V 3)] [] [] [(V 0, C 5, V 3)];
+   Rule [(V 0, V 5, V 1)] [] [] [(V 1, V 5, V 0)]].
+Definition wit_F : list fact := [(0, 4, 1); (1, 4, 2); (2, 4, 3)].
+
+Theorem C05_parallel_refuted :
+  exists nv P F fuel all new,
+    safe P = true /\ positive P = true /\ known_C05_par P = true /\
+    par_run fuel P F = Some (all, new) /\ new = [] /\
+    exists f, derives nv P F f /\ ~ In f all.
+Proof.
+  exists (fun _ => 0%Z), wit_P, wit_F, 10%nat, wit_F, [].
+  split; [reflexivity |]. split; [reflexivity |]. split; [reflexivity |]. split; [vm_compute; reflexivity |]. split; [reflexivity |].
+  exists (0, 5, 3). split.
+  - assert (R : exists all new, naive_run (fun _ => 0%Z) 10 wit_P wit_F = Some (all, new) /\ In (0, 5, 3) all).
+    { eexists. eexists. split; [vm_compute; reflexivity |]. vm_compute. tauto. }
+    destruct R as [all [new [R Hin]]].
+    destruct (naive_correct (fun _ => 0%Z) wit_P wit_F eq_refl 10%nat all new R) as [A _]. apply A. exact Hin.
+  - vm_compute. intros H. repeat (destruct H as [H | H]; [discriminate |]). exact H.
+Qed.
+Print Assumptions C05_parallel_refuted.
+
+(* ---- one stratum of negation ------------------------------------------------------------------------ *)
+(* The executable stratified Spec (oracle of the negation stream) computes the inductive definition
+   [stratified_model] (Stratified.v), and its check [strat_ok] implies that the two-level split is a
+   stratification of the program. *)
+Theorem C05_stratified_spec_executable :
+  forall nv fuel P F M0 M1 ok,
+    safe P = true -> stratified_exec nv fuel P F = Some (M0, M1, ok) ->
+    (forall f, In f M0 <-> derives nv (pos_rules P) F f) /\
+    (forall f, In f M1 <-> stratified_model nv P F f) /\
+    (ok = true -> stratifiable nv P F).
+Proof. exact stratified_exec_correct. Qed.
+Print Assumptions C05_stratified_spec_executable.
+
+(* The full statement "with safe negation the result is the stratified model" is FALSE for the naive,
+   semi-naive and parallel strategies, which never read the negated atoms.  Witness
+   (corpus/C05/neg-ignored.json, reproduced on the real code): facts (a p b) (a q b) (b p a), rule
+   (X0 p X1), NOT (X0 q X1) -> (X0 r X1): all three store (a r b). *)
+Definition neg_P : list rule := [Rule [(V 0, C 2, V 1)] [(V 0, C 3, V 1)] [] [(V 0, C 4, V 1)]].
+Definition neg_F : list fact := [(0, 2, 1); (0, 3, 1); (1, 2, 0)].
+
+Theorem C05_negation_ignored_refuted :
+  exists nv P F fuel,
+    safe P = true /\ known_C05_neg P = true /\ stratifiable nv P F /\
+    exists f, ~ stratified_model nv P F f /\
+      (exists all new, naive_run nv fuel P F = Some (all, new) /\ In f all) /\
+      (exists all new, semi_run nv fuel P F = Some (all, new) /\ In f all) /\
+      (exists all new, par_run fuel P F = Some (all, new) /\ In f all).
+Proof.
+  exists (fun _ => 0%Z), neg_P, neg_F, 10%nat.
+  assert (E : exists M0 M1, stratified_exec (fun _ => 0%Z) 10 neg_P neg_F = Some (M0, M1, true) /\ ~ In (0, 4, 1) M1).
+  { eexists. eexists. split; [vm_compute; reflexivity |]. vm_compute. intros H. repeat (destruct H as [H | H]; [discriminate |]). exact H. }
+  destruct E as [M0 [M1 [E Hn]]].
+  destruct (stratified_exec_correct (fun _ => 0%Z) 10%nat neg_P neg_F M0 M1 true eq_refl E) as [_ [A1 Ok]].
+  split; [reflexivity |]. split; [reflexivity |]. split; [apply Ok; reflexivity |].
+  exists (0, 4, 1). split; [intros H; apply Hn; apply A1; exact H |].
+  repeat split; eexists; eexists; (split; [vm_compute; reflexivity | vm_compute; tauto]).
+Qed.
+Print Assumptions C05_negation_ignored_refuted.
+
+(* ... and for the provenance strategy, whose single pass over the rules with negated atoms cannot feed any
+   other rule.  Witness (corpus/C05/neg-single-pass.json, reproduced on the real code): the rule above plus
+   (X0 r X1) -> (X1 r X0): the stratified model contains (a r b), the strategy does not store it. *)
+Definition neg2_P : list rule :=
+  [Rule [(V 0, C 2, V 1)] [(V 0, C 3, V 1)] [] [(V 0, C 4, V 1)];
+   Rule [(V 0, C 4, V 1)] [] [] [(V 1, C 4, V 0)]].
+
+Theorem C05_negation_single_pass_refuted :
+  exists nv P F fuel all new,
+    safe P = true /\ known_C05_neg_feed P = true /\ stratifiable nv P F /\
+    prov_bool_run nv fuel P F = Some (all, new) /\
+    exists f, stratified_model nv P F f /\ ~ In f all.
+Proof.
+  exists (fun _ => 0%Z), neg2_P, neg_F, 10%nat.
+  assert (E : exists M0 M1, stratified_exec (fun _ => 0%Z) 10 neg2_P neg_F = Some (M0, M1, true) /\ In (0, 4, 1) M1).
+  { eexists. eexists. split; [vm_compute; reflexivity |]. vm_compute. tauto. }
+  destruct E as [M0 [M1 [E Hin]]].
+  destruct (stratified_exec_correct (fun _ => 0%Z) 10%nat neg2_P neg_F M0 M1 true eq_refl E) as [_ [A1 Ok]].
+  eexists. eexists. split; [reflexivity |]. split; [reflexivity |]. split; [apply Ok; reflexivity |].
+  split; [vm_compute; reflexivity |].
+  exists (0, 4, 1). split; [apply A1; exact Hin |].
+  vm_compute. intros H. repeat (destruct H as [H | H]; [discriminate |]). exact H.
+Qed.
+Print Assumptions C05_negation_single_pass_refuted.
+
+(* Outside that class the provenance strategy (Boolean tags) computes the stratified model. *)
+Theorem C05_negation_prov :
+  forall nv P F fuel all new,
+    safe P = true -> known_C05_neg_feed P = false -> prov_bool_run nv fuel P F = Some (all, new) ->
+    (forall f, In f all <-> stratified_model nv P F f) /\
+    (forall f, In f new <-> stratified_model nv P F f /\ ~ In f F) /\ NoDup new.
+Proof. intros nv P F fuel all new HS HK. apply (prov_neg_correct nv P F HS HK). Qed.
+Print Assumptions C05_negation_prov.
+
+Example C05_example_negation :
+  safe neg_P = true /\ known_C05_neg_feed neg_P = false /\ known_C05_neg neg_P = true /\
+  prov_bool_run (fun _ => 0%Z) 10 neg_P neg_F = Some (neg_F ++ [(1, 4, 0)], [(1, 4, 0)]).
+Proof. repeat split; vm_compute; reflexivity. Qed.
+
+(* non-vacuity: a concrete program on which every hypothesis above holds and the runs return *)
+Definition ex_P : list rule :=
+  [Rule [(V 0, C 10, V 1)] [] [] [(V 0, C 11, V 1)];
+   Rule [(V 0, C 11, V 1); (V 1, C 11, V 2)] [] [FVarNe 0 2] [(V 0, C 11, V 2)]].
+Definition ex_F : list fact := [(1, 10, 2); (2, 10, 3); (3, 10, 1)].
+Example C05_example :
+  safe ex_P = true /\ positive ex_P = true /\
+  (exists all new, naive_run (fun _ => 0%Z) 20 ex_P ex_F = Some (all, new) /\ length new = 6%nat) /\
+  (exists all new, semi_run (fun _ => 0%Z) 20 ex_P ex_F = Some (all, new) /\ length new = 6%nat) /\
+  (exists all new, prov_bool_run (fun _ => 0%Z) 20 ex_P ex_F = Some (all, new) /\ length new = 6%nat) /\
+  (exists M, least_model (fun _ => 0%Z) 20 ex_P ex_F = Some M /\ length M = 9%nat).
+Proof.
+  split; [reflexivity |]. split; [reflexivity |].
+  repeat split; eexists; try eexists; split; vm_compute; reflexivity.
+Qed.
+Example C05_example_parallel :
+  let P := [Rule [(V 0, C 10, V 1)] [] [] [(V 0, C 11, V 1)];
+            Rule [(V 0, C 11, V 1); (V 1, C 11, V 2)] [] [] [(V 0, C 11, V 2)]] in
+  safe P = true /\ known_C05_par P = false /\
+  exists all new, par_run 20 P ex_F = Some (all, new) /\ length new = 9%nat.
+Proof. split; [reflexivity |]. split; [reflexivity |]. eexists. eexists. split; vm_compute; reflexivity. Qed.
